@@ -318,17 +318,18 @@ func runC02(x *xctx) *violation {
 		buf.WriteString("MAPPED_LIBRARIES:\n" + tr)
 		name, data = "generated.profilez", buf.Bytes()
 	}
-	if data == nil {
+	genProto := func() (string, []byte) {
 		p := genProfile(t, genOpts{labels: true, inlines: true, negative: true, odd: t.Bool(K, 30), maxFuncs: 4, maxSamples: 4})
 		var buf bytes.Buffer
 		if t.Bool(K, 50) {
 			p.Write(&buf)
-			name = "generated.pb.gz"
-		} else {
-			p.WriteUncompressed(&buf)
-			name = "generated.pb"
+			return "generated.pb.gz", buf.Bytes()
 		}
-		data = buf.Bytes()
+		p.WriteUncompressed(&buf)
+		return "generated.pb", buf.Bytes()
+	}
+	if data == nil {
+		name, data = genProto()
 	}
 	deep := false
 	if t.Bool(K, 4) {
@@ -379,6 +380,26 @@ func runC02(x *xctx) *violation {
 		return violf("short-read-dependent", "%s read in 1-byte pieces parses differently (parsed=%v %s vs %s): %s", name, sr.parsed, sr.digest, ref.digest, sr.errText)
 	}
 	x.fault("shortread-1byte", 1)
+
+	// The fault-free configuration on its own: a batch of further undamaged
+	// generated profiles through the same parse-and-downstream pipeline. Each
+	// costs one execution, against the ~1700 damaged ones of the entry above,
+	// and keeps the variety of well-formed inputs from being the bottleneck.
+	for i := 0; i < 24; i++ {
+		n2, d2 := genProto()
+		simos.PutFile(path, d2)
+		r2, v := c02Try(x, path, true)
+		if v != nil {
+			x.tr("undamaged extra entry %d: %s (%d bytes)", i, n2, len(d2))
+			v.Detail = "undamaged " + n2 + ": " + v.Detail
+			return v
+		}
+		if !r2.parsed {
+			return violf("corpus-rejected", "undamaged generated profile %s does not parse: %s", n2, r2.errText)
+		}
+		x.stats["undamaged_extra"]++
+	}
+	simos.PutFile(path, data)
 
 	execs, parsedDamaged, e2e := 0, 0, 0
 	try := func(kind string, desc string, mutated []byte) *violation {
